@@ -41,6 +41,24 @@ def render(lines):
     return "\n".join(out) + "\n"
 
 
+def load_unlabelled_arff(panel, variant, workdir, tid):
+    """An .arff file without class attribute, loaded with has_class_labels=False."""
+    from sktime.utils.data_io import load_from_arff_to_dataframe
+    n = len(panel[0]["vals"])
+    lines = ["@relation x"] + ["@attribute att%d numeric" % k for k in range(n)] + ["@data"]
+    lines += [",".join(repr(VALUES[v]) for v in c["vals"]) for c in panel]
+    path = os.path.join(workdir, "u%d.arff" % tid)
+    with open(path, "w") as f:
+        f.write("\n".join(lines) + ("\n" if variant % 2 else ""))
+    try:
+        X = load_from_arff_to_dataframe(path, has_class_labels=False)
+        return [{"vals": [token_id(v, 1e-9) for v in X.iloc[i, 0].values], "lab": ""} for i in range(len(X))]
+    except Exception as e:
+        return [{"vals": [-2], "lab": type(e).__name__}]
+    finally:
+        os.remove(path)
+
+
 def render_other_formats(panel, variant):
     """The same labelled, equal-length, univariate panel as the text of an .arff and of a UCR .tsv file (what the
     archive ships next to every .ts file), with harmless layout variations."""
@@ -72,7 +90,7 @@ def load_other_formats(panel, variant, workdir, tid):
             for i in range(len(X)):
                 cell = X.iloc[i, 0]
                 ok = list(X.columns) == ["dim_0"] and [int(t) for t in cell.index] == list(range(len(cell)))
-                cases.append({"vals": [token_id(v) for v in cell.values] if ok else [-1], "lab": str(y[i])})
+                cases.append({"vals": [token_id(v, 1e-9) for v in cell.values] if ok else [-1], "lab": str(y[i])})
             out[ext] = cases
         except Exception as e:
             out[ext] = [{"vals": [-2], "lab": type(e).__name__}]
@@ -81,10 +99,12 @@ def load_other_formats(panel, variant, workdir, tid):
     return out
 
 
-def token_id(tok):
+def token_id(tok, tol=1e-5):
+    """Identifier of a value: within the precision the writer prints (tol=1e-5 relative) for text tokens; what a
+    loader returns is the double nearest to the printed number, so loaded values are identified at 1e-9."""
     x = float(tok)
     for k, v in VALUES.items():
-        if abs(x - v) <= 1e-5 * abs(v):       # the precision the writer prints
+        if abs(x - v) <= tol * abs(v):
             return k
     return 0
 
@@ -176,11 +196,39 @@ def write_and_load(cfg, workdir, tid):
             write_dataframe_to_tsfile(X, d, problem_name="x", **kw)
         path = os.path.join(d, "x", "x_transform.ts")
         text = open(path).read()
-        return parse_text(text, labels), load(path)
+        loaded = load(path)
+        # what the loader returns is exactly the double nearest to every number printed in the file
+        if not loaded.get("rej") and "crash" not in loaded:
+            from sktime.utils.data_io import load_from_tsfile_to_dataframe
+            res = load_from_tsfile_to_dataframe(path)
+            Xl = res[0] if isinstance(res, tuple) else res
+            printed = [[float(t) for t in ln.split(":")[0].split(",")] for ln in text.splitlines()
+                       if ln.strip() and not ln.lstrip().startswith(("@", "#"))]
+            got = [[float(v) for v in Xl.iloc[i, 0].values] for i in range(len(Xl))]
+            if got != printed:
+                loaded["cases"] = [{"vals": [-3], "lab": "loaded values are not the printed numbers"}]
+        return parse_text(text, labels), loaded
     except Exception as e:
         return None, {"crash": type(e).__name__ + ": " + str(e)[:120]}
     finally:
         shutil.rmtree(d, ignore_errors=True)
+
+
+def multivariate_arff_agrees(name):
+    """The relational (multivariate) .arff file of a bundled problem parses to the panel of its .ts file."""
+    from sktime.utils.data_io import load_from_tsfile_to_dataframe, load_from_arff_to_dataframe
+    import sktime
+    base = os.path.join(os.path.dirname(sktime.__file__), "datasets", "data", name, name)
+    Xt, yt = load_from_tsfile_to_dataframe(base + "_TRAIN.ts")
+    Xa, ya = load_from_arff_to_dataframe(base + "_TRAIN.arff")
+    if Xa.shape != Xt.shape or [str(v).lower() for v in ya] != [str(v).lower() for v in yt]:      # (labels up to letter case)
+        return "shape %s / %d labels from the .arff, %s / %d from the .ts" % (Xa.shape, len(ya), Xt.shape, len(yt))
+    for i in range(len(Xt)):
+        for j in range(Xt.shape[1]):
+            a, b = np.asarray(Xa.iloc[i, j], dtype=float), np.asarray(Xt.iloc[i, j], dtype=float)
+            if a.shape != b.shape or not np.allclose(a, b, atol=1e-4, rtol=0):
+                return "instance %d dimension %d differs" % (i, j)
+    return ""
 
 
 def dataset_record(name, loader, has_formats):
@@ -279,6 +327,11 @@ def run(ctx):
                          "labels": cfg["labels"], "lines": lines, "loaded": loaded})
             # the same panel shipped as .arff and as UCR .tsv parses to the very panel the .ts file parses to
             lens = {len(c["vals"]) for c in cfg["panel"]}
+            if not cfg["opts"]["labelled"] and len(lens) == 1 and min(lens) >= 1 and cfg["panel"]:
+                ua = load_unlabelled_arff(cfg["panel"], i, work, i)
+                ctx.evaluations += 1
+                ts_cases = [{"vals": c["vals"], "lab": ""} for c in cfg["panel"]]
+                recs.append({"tid": len(recs), "kind": "formats", "ts": ts_cases, "arff": ua, "tsv": ts_cases})
             if cfg["opts"]["labelled"] and len(lens) == 1 and min(lens) >= 1 and cfg["panel"]:
                 other = load_other_formats(cfg["panel"], i, work, i)
                 ctx.evaluations += 1
@@ -303,6 +356,13 @@ def run(ctx):
             recs.append({"tid": len(recs), "kind": "dataset", "name": name, "has_formats": hf, "d": d})
         except Exception as e:
             ctx.violation({"dataset": name}, "dataset loader crash: %s %s" % (type(e).__name__, str(e)[:120]))
+    ctx.evaluations += 1
+    try:
+        msg = multivariate_arff_agrees("BasicMotions")
+        if msg:
+            ctx.violation({"dataset": "BasicMotions", "format": "arff"}, "FormatsAgree (multivariate .arff): " + msg)
+    except Exception as e:
+        ctx.violation({"dataset": "BasicMotions", "format": "arff"}, "multivariate .arff loader crash: %s %s" % (type(e).__name__, str(e)[:120]))
     fill = {"ts": [], "arff": [], "tsv": [], "lines": [], "loaded": {"rej": False, "cases": [], "labelled": False}, "opts": {"comment": False, "equal": False, "labelled": False},
             "panel": [], "labels": [], "d": {}, "has_formats": False}
     rejects, _ = ctx.judge("TraceTsFile", "TraceTsFile.cfg",
